@@ -298,7 +298,12 @@ func (p *Proxy) handleHTTP(r responder.Responder, proxyReq *http.Request) error 
 	removeHopByHopHeaders(proxyReq.Header)
 
 	clientHd := headers.ParseHeaderDirective(proxyReq.Header)
-	clientHd.StripRegularConditionals(proxyReq.Header)
+	if proxyReq.Method == http.MethodGet || proxyReq.Method == http.MethodHead {
+		// GET and HEAD are answered for the origin (from the store, or after a revalidation with the stored
+		// validators): the client's own conditionals must not reach it. For every other method they are the client's
+		// business with the origin (If-Match on a PUT is its guard against lost updates) and are relayed.
+		clientHd.StripRegularConditionals(proxyReq.Header)
+	}
 
 	key := cache.MakeFromRequest(proxyReq)
 
